@@ -181,6 +181,7 @@ def run_linbounds(prog, ctx=None):
     for f in sorted(roots, key=lambda f: (f.file, f.line)):
         an = LinAnalysis(prog, invariants={r: queue_inv for r in QUEUE_RECORDS}, contracts=CONTRACTS)
         an.modular = set(MODULAR) - {f.name}
+        an.max_returns = 64
         cxx = f.file.endswith(".cpp")
         fileset = set(files)
         # C entry points: callees from the queue files are analysed in context; everything else (and every callee of the
@@ -208,7 +209,7 @@ def run_linbounds(prog, ctx=None):
                 nsucc += 1
                 want = entry.env.get(("v", fr.id, pid[spec[3]]))
                 got = st.env.get(("copied", "P." + spec[1]), Lin.const(0))
-                if "join" in st.trail:
+                if st.joined:
                     continue
                 if not (isinstance(want, Lin) and st.entails_eq(got, want)):
                     okc = False
@@ -219,7 +220,7 @@ def run_linbounds(prog, ctx=None):
         for o in an.obls:
             stats["access_checks"] += 1
             key = "LIN:%s:%s:%s" % (o.func.name, o.kind, norm(o.text)[:80])
-            exact = "join" not in o.detail.split("path: ")[-1] if not o.ok else True
+            exact = o.exact
             cur = agg.get(key)
             if o.ok:
                 if cur is None:
@@ -242,7 +243,7 @@ def run_linbounds(prog, ctx=None):
             ref_ok, ref_detail = True, ""
             nerr = 0
             for st, v in outs:
-                joined = "join" in st.trail
+                joined = st.joined
                 r = queue_inv(an, st, obj, prefix, False)
                 bad = [t for t, ok in r if not ok]
                 if bad and not joined:
@@ -278,4 +279,275 @@ def run_linbounds(prog, ctx=None):
         res.count(k, v)
     res.notes.append({"undecided_behind_loop_joins": sorted({k for k, d in undecided})[:40], "entailment_calls": FM_STATS.get("calls", 0), "simplex_fallbacks": FM_STATS.get("lp", 0),
                       "callees_assumed_to_keep_INV": sorted(assumed)})
+    return res
+
+
+# =====================================================================================================================
+# LINBUF (C04, C05): typed buffers — payload bounds, used <= size, allocation / detach contracts
+# =====================================================================================================================
+BUFFER_RECORDS = ("mpt_buffer", "mpt::buffer")
+PTRDIFF_MAX = (1 << 63) - 1
+
+
+def buffer_inv(an, st, obj, prefix, assume):
+    used = st.env.get(("f", obj, prefix + "_used"))
+    size = st.env.get(("f", obj, prefix + "_size"))
+    if assume:
+        if obj is None:
+            return None
+        st.env[("payload", obj, prefix)] = Region("payload(%s%s)" % (obj, prefix.rstrip(".")), size, "storage")
+        st.add(size - used)
+        st.add(Lin.const(PTRDIFF_MAX) - size)
+        return None
+    if not (isinstance(used, Lin) and isinstance(size, Lin)):
+        return [("buffer fields known", False)]
+    res = [("_used <= _size", st.entails(size - used))]
+    reg = an.payload_of(st, obj, prefix)
+    if reg is None:
+        res.append(("payload area known", False))
+    else:
+        res.append(("_size <= bytes that follow the header", st.entails(reg.size - size)))
+    return res
+
+
+SLICE_RECORDS = ("mpt_slice", "mpt::slice")
+
+
+def slice_inv(an, st, obj, prefix, assume):
+    """offset and length of a slice are sizes of parts of one object: neither exceeds PTRDIFF_MAX (their sum cannot wrap)"""
+    off = st.env.get(("f", obj, prefix + "_off"))
+    ln = st.env.get(("f", obj, prefix + "_len"))
+    if assume:
+        if obj is None:
+            return None
+        if isinstance(off, Lin):
+            st.add(Lin.const(PTRDIFF_MAX) - off)
+        if isinstance(ln, Lin):
+            st.add(Lin.const(PTRDIFF_MAX) - ln)
+        return None
+    if not (isinstance(off, Lin) and isinstance(ln, Lin)):
+        return [("slice fields known", False)]
+    return [("_off <= PTRDIFF_MAX", st.entails(Lin.const(PTRDIFF_MAX) - off)), ("_len <= PTRDIFF_MAX", st.entails(Lin.const(PTRDIFF_MAX) - ln))]
+
+
+def _new_buffer(an, st, fr, need, used_zero, rec="mpt_buffer"):
+    """a fresh buffer object as the allocation / detach contract promises it"""
+    s_null = st.copy()
+    ptr = an.lazy_object(st, fr.f, rec, maybe_null=False, kind="N")
+    size = st.env.get(("f", ptr.obj, "_size"))
+    if isinstance(need, Lin) and isinstance(size, Lin):
+        st.add(size - need)
+    if used_zero:
+        st.env[("f", ptr.obj, "_used")] = Lin.const(0)
+    return [(st, ptr), (s_null, Ptr(None, Lin.const(0)))]
+
+
+def post_buffer_alloc(an, st, fr, e, args):
+    return _new_buffer(an, st, fr, args[0] if args else None, True)
+
+
+def slot_detach(an, st, fr, e, args):
+    # b->_vptr->detach(b, len): the site owes INV(b); the result is null or a buffer with _size >= len
+    if args and isinstance(args[0], ObjPtr):
+        a = args[0]
+        for r2, pre in an.inv_objects(an.objrec.get((a.obj, a.prefix)), a.obj, a.prefix):
+            res = an.invariants[r2](an, st, a.obj, pre, False)
+            bad = [t for t, ok in res if not ok]
+            an.oblige("CALLINV", fr, e, not bad, "" if not bad else "buffer handed to detach() while %s is not shown; path: %s" % (", ".join(bad), " / ".join(st.trail[-8:])))
+    return _new_buffer(an, st, fr, args[1] if len(args) > 1 else None, False)
+
+
+def slot_pure(an, st, fr, e, args):
+    # get_flags() / addref(): no effect on the buffer's length fields
+    return [(st, an.fresh_of_type(st, fr.f, e.get("t")))]
+
+
+def check_post_buffer(an, f, fr, entry, outs, need_param, used_zero, agg):
+    """exit obligation of an allocation / detach implementation: what call sites rely on"""
+    pid = {p["n"]: p["id"] for p in f.params}
+    ok, det = True, ""
+    n = 0
+    for st, v in outs:
+        if not isinstance(v, ObjPtr):
+            if isinstance(v, Ptr) and v.region is None:
+                continue
+            if st.joined:
+                continue
+            ok, det = False, "returns a pointer that is not a known buffer object on path %s" % " / ".join(st.trail[-8:])
+            continue
+        n += 1
+        r = buffer_inv(an, st, v.obj, v.prefix, False)
+        bad = [t for t, o in r if not o]
+        need = entry.env.get(("v", fr.id, pid.get(need_param)))
+        size = st.env.get(("f", v.obj, v.prefix + "_size"))
+        if isinstance(need, Lin) and not (isinstance(size, Lin) and st.entails(size - need)):
+            bad.append("_size >= requested %s" % need_param)
+        if used_zero and not (isinstance(st.env.get(("f", v.obj, v.prefix + "_used")), Lin) and st.entails_eq(st.env[("f", v.obj, v.prefix + "_used")], Lin.const(0))):
+            bad.append("_used == 0")
+        if bad and "join" not in st.trail:
+            ok, det = False, "%s not shown for the returned buffer on path %s" % (", ".join(bad), " / ".join(st.trail[-8:]))
+    agg["LIN:%s:POST" % f.name] = [ok, FRef(f), f.line, det, True]
+    return n
+
+
+def reachable_buffers(an, f, st, fr):
+    """(object, prefix, text) of the buffers an entry point's parameters lead to at this state"""
+    out = []
+    for p in f.params:
+        v = st.env.get(("v", fr.id, p["id"]))
+        if not isinstance(v, ObjPtr):
+            continue
+        rec = an.objrec.get((v.obj, v.prefix))
+        if rec in BUFFER_RECORDS:
+            out.append((v.obj, v.prefix, p["n"]))
+            continue
+        # one hop: pointer members to buffers (array._buf, slice._a._buf)
+        for k, val in st.env.items():
+            if k[0] == "f" and k[1] == v.obj and k[2].startswith(v.prefix) and isinstance(val, ObjPtr):
+                if an.objrec.get((val.obj, val.prefix)) in BUFFER_RECORDS:
+                    out.append((val.obj, val.prefix, "%s->%s" % (p["n"], k[2][len(v.prefix):])))
+    return out
+
+
+BUF_CONTRACTS = {
+    "mpt_buffer_set": {"src_data": ("bytes", "len", True)},
+    "mpt_array_append": {"base": ("bytes", "len", True)},
+    "mpt_array_set": {"data": ("bytes", "len", True)},
+}
+GLOBAL_INV = {"_mpt_buffer_alloc_psize": (0, 4 * 1024 * 1024 + 8, 8)}      # 0 (unset) or a page size of at least 8
+
+
+class FRef:
+    """what an obligation needs of a function (picklable)"""
+    def __init__(self, f):
+        self.file, self.qn, self.name, self.line = f.file, f.qn, f.name, f.line
+
+
+_G = {}
+
+
+def _parallel(worker, n, jobs=None):
+    """run worker(i) for i in range(n) in forked processes (the program model is shared copy-on-write)"""
+    import multiprocessing as mp, os
+    jobs = jobs or min(16, os.cpu_count() or 4, n)
+    if jobs <= 1 or os.environ.get("LIN_SERIAL"):
+        return [worker(i) for i in range(n)]
+    ctx = mp.get_context("fork")
+    with ctx.Pool(jobs) as pool:
+        return pool.map(worker, range(n), chunksize=1)
+
+
+def _merge_obls(an, f, agg, undecided, stats):
+    for o in an.obls:
+        stats["access_checks"] = stats.get("access_checks", 0) + 1
+        key = "LIN:%s:%s:%s" % (o.func.name, o.kind, norm(o.text)[:80])
+        cur = agg.get(key)
+        if o.ok:
+            if cur is None:
+                agg[key] = [True, FRef(o.func), o.line, "", True]
+            continue
+        if not o.exact:
+            undecided.add(key)
+            if cur is None:
+                agg[key] = [True, FRef(o.func), o.line, "", False]
+            continue
+        if cur is None or cur[0]:
+            agg[key] = [False, FRef(o.func), o.line, "%s (entry point %s, call chain %s)" % (o.detail, f.name, " > ".join(o.chain)), True]
+
+
+def _buf_root(i):
+    prog, roots, fileset = _G["prog"], _G["roots"], _G["fileset"]
+    f = roots[i]
+    agg, undecided, stats = {}, set(), {}
+    invs = {r: buffer_inv for r in BUFFER_RECORDS}
+    invs.update({r: slice_inv for r in SLICE_RECORDS})
+    an = LinAnalysis(prog, invariants=invs, contracts=BUF_CONTRACTS)
+    an.global_inv = dict(GLOBAL_INV)
+    an.slot_contracts = {"detach": slot_detach, "get_flags": slot_pure, "addref": slot_pure}
+    an.max_returns = 8
+    an.state_budget = 6000
+    if f.name != "_mpt_buffer_alloc":
+        an.post = {"_mpt_buffer_alloc": post_buffer_alloc}
+    an.policy = (lambda fr, g: "inline" if g.file in fileset else "modular")
+    import time as _t
+    t0 = _t.time()
+    entry, fr, outs = an.analyse_root(f)
+    for k in ("states", "paths", "inlined", "slot_calls"):
+        stats[k] = an.stats.get(k, 0)
+    if __import__("os").environ.get("LIN_TIMES"):
+        print("  [lin] %-32s %6.1fs states %d" % (f.name, _t.time() - t0, an.stats.get("states", 0)), flush=True)
+    _merge_obls(an, f, agg, undecided, stats)
+    if an.over_budget:
+        # the exploration was cut: nothing is claimed for this entry point beyond the obligations met so far
+        undecided.add("LIN:%s:budget" % f.name)
+        return {"agg": agg, "undecided": undecided, "stats": stats, "assumed": an.assumed, "cut": f.name}
+    inv_ok, inv_det = True, ""
+    nb = 0
+    for st, v in outs:
+        for p in f.params:
+            pv = st.env.get(("v", fr.id, p["id"]))
+            if isinstance(pv, ObjPtr) and an.objrec.get((pv.obj, pv.prefix)) in SLICE_RECORDS:
+                nb += 1
+                bad = [t for t, o in slice_inv(an, st, pv.obj, pv.prefix, False) if not o]
+                if bad and not st.joined:
+                    inv_ok = False
+                    inv_det = "%s: %s not shown at return on path %s" % (p["n"], ", ".join(bad), " / ".join(st.trail[-8:]))
+                elif bad:
+                    undecided.add("LIN:%s:INV" % f.name)
+        for obj, prefix, text in reachable_buffers(an, f, st, fr):
+            nb += 1
+            r = buffer_inv(an, st, obj, prefix, False)
+            bad = [t for t, o in r if not o]
+            if bad:
+                if st.joined:
+                    undecided.add("LIN:%s:INV" % f.name)
+                else:
+                    inv_ok = False
+                    inv_det = "%s: %s not shown at return on path %s" % (text, ", ".join(bad), " / ".join(st.trail[-8:]))
+    if nb:
+        agg["LIN:%s:INV" % f.name] = [inv_ok, FRef(f), f.line, inv_det, True]
+    if f.name == "_mpt_buffer_alloc":
+        check_post_buffer(an, f, fr, entry, outs, "len", True, agg)
+    elif f.name.endswith("_detach") and len(f.params) == 2:
+        check_post_buffer(an, f, fr, entry, outs, f.params[1]["n"], False, agg)
+    return {"agg": agg, "undecided": undecided, "stats": stats, "assumed": an.assumed, "cut": None}
+
+
+def _collect(res, parts):
+    agg, undecided, assumed, cut = {}, set(), set(), []
+    stats = {}
+    for p in parts:
+        for k, v in p["agg"].items():
+            cur = agg.get(k)
+            if cur is None or (cur[0] and not v[0]):
+                agg[k] = v
+            elif cur[0] and v[0] and not v[4]:
+                cur[4] = False
+        undecided |= p["undecided"]
+        assumed |= set(p["assumed"])
+        if p["cut"]:
+            cut.append(p["cut"])
+        for k, v in p["stats"].items():
+            stats[k] = stats.get(k, 0) + v
+    for key in sorted(agg):
+        ok, fn, line, detail, decided = agg[key]
+        res.ob(key, ok, fn, line, detail)
+    stats["roots"] = len(parts)
+    for k, v in stats.items():
+        res.count(k, v)
+    res.notes.append({"undecided_behind_joins": sorted(undecided)[:80], "callees_assumed_to_keep_INV": sorted(assumed), "entry_points_cut_by_budget": cut})
+    return agg
+
+
+def run_linbuf(prog, ctx=None):
+    res = Result("LINBUF")
+    files = [x for x in (ctx.get("files", []) if ctx else []) if x.endswith(".c") and x.startswith((ctx or {}).get("only_dir", ""))]
+    roots = sorted([f for f in prog.funcs_in(files) if not f.nocfg], key=lambda f: (f.file, f.line))
+    if len(roots) < 12:
+        raise Broken("LINBUF: only %d entry points in the buffer files" % len(roots))
+    _G.update(prog=prog, roots=roots, fileset=set(files))
+    parts = _parallel(_buf_root, len(roots))
+    agg = _collect(res, parts)
+    if "LIN:_mpt_buffer_alloc:POST" not in agg:
+        raise Broken("LINBUF: allocation contract has no implementation to check (_mpt_buffer_alloc)")
     return res
